@@ -77,4 +77,10 @@ def infere_type(expr):
 
         return indices[0]
 
+    elif isinstance(expr, Mul):
+        # a constant multiple of a form has the type of that form
+        vectors = [a for a in expr.args if not isinstance(a, _coeffs_registery)]
+        if len(vectors) == 1:
+            return infere_type(vectors[0])
+
     return None
